@@ -107,6 +107,33 @@ Theorem C23_multi (c : cfg) (n : Z) (us : list sub) :
 Proof. exact (multi_checked_exact c n us). Qed.
 Print Assumptions C23_multi.
 
+(* NESTED for-equations whose subscript uses the inner index only: accepted => the selection is the inner
+   Modelica selection repeated once per outer value; an out-of-range inner loop => ValueError -- whatever
+   the outer range and whether or not the inner index reuses the outer name (the innermost loop of a name
+   decides; the statement seeded change m9 violates) *)
+Theorem C23_nested (c : cfg) (n oa ob : Z) (u : sub) (shadow : bool) :
+  chk_slice c = true -> chk_loop c = true -> empty_ok c = true -> wf c u -> 0 <= n ->
+  index_nested c n oa ob u shadow = modelica_nested n oa ob u
+  /\ (modelica n u = ErrV -> index_nested c n oa ob u shadow = ErrV)
+  /\ (forall l, index_nested c n oa ob u shadow = Ok l ->
+       exists l0, modelica n u = Ok l0 /\ l = repeat_app (outer_count oa ob) l0).
+Proof.
+  intros Hs Hl He Hw Hn. split; [exact (nested_checked_exact c n oa ob u shadow Hs Hl He Hw Hn)|].
+  split; [exact (nested_rejected c n oa ob u shadow Hs Hl He Hw Hn)|].
+  intros l. exact (nested_accepted c n oa ob u shadow l Hs Hl He Hw Hn).
+Qed.
+Print Assumptions C23_nested.
+
+(* on HEAD: Real x[2]; for i in 1:2 loop for i in 0:1 loop .. x[i] is rejected; Real x[3]; for i in 1:2 loop
+   for i in 1:3 loop x[i] selects 1,2,3 twice *)
+Example C23_nested_example :
+  index_nested repo_head 2 1 2 (LoopV 0 1 0) true = ErrV /\
+  index_nested repo_head 2 1 2 (LoopV 1 3 0) true = ErrV /\
+  index_nested repo_head 3 1 2 (LoopV 1 3 0) true = Ok [1; 2; 3; 1; 2; 3] /\
+  index_nested repo_head 2 0 3 (LoopX 1 2 (LSub (LConst 3) LVar)) false = Ok [2; 1; 2; 1; 2; 1; 2; 1].
+Proof. vm_compute. repeat split; reflexivity. Qed.
+Print Assumptions C23_nested_example.
+
 (* PARTIAL (what holds of /repo as it was, and of every configuration): two-part subscripts that stay
    inside the array -- scalar i, ':', a:b with 1 <= a and 0 <= b <= n, loop indices i+off all inside
    1..n -- select exactly the Modelica elements.  Missing for the full property: the out-of-range
